@@ -1,4 +1,4 @@
 From Coq Require Extraction.
 From Coq Require Import ExtrOcamlBasic.
 From RM Require Import C12.Model C12.Driver.
-Extraction "c12_model.ml" run_case run_pcase run_pfcase run_proccase o_mid_req o_mid_proc o_mid_done o_log o_results o_req o_proc o_stats o_rounds o_hung nat_of_z z_of_nat stat_loaded stat_corrupt run_wcase run_dcase run_jcase run_fcase w_trace w_lost w_fuel w_log w_results w_req w_proc w_stats.
+Extraction "c12_model.ml" run_case run_pcase run_pfcase run_proccase run_acase unfold_rows o_mid_req o_mid_proc o_mid_done o_log o_results o_req o_proc o_stats o_rounds o_hung nat_of_z z_of_nat stat_loaded stat_corrupt run_wcase run_dcase run_jcase run_fcase w_trace w_lost w_fuel w_log w_results w_req w_proc w_stats.
